@@ -1,0 +1,119 @@
+//go:build verif
+
+package headersCache
+
+// Contracts for govc (/verif), property C29 (race-freedom part). Comment-only file: no executable code, not part of the default build.
+//
+// Lock discipline. All state of the pool lives in *headersCache (three maps), which has no mutex of its own: it is
+// guarded by headersPool.mutHeadersPool. The engine's `holds` clause can only name a mutex of the receiver, so the
+// discipline is stated in two halves:
+//   (1) `guarded_by mutHeadersPool: cache` — every pool method reaches the cache through the field `cache`, whose read
+//       needs the mutex (read or write mode): lock: obligations;
+//   (2) a cache method that is called by a pool method holding only RLock must not write: it carries `assigns nothing`
+//       (frame: obligations), and so do the RLock-only pool methods (GetNumHeaders, Nonces, Len, MaxSize).
+// The index-consistency half of C29 (hash index <-> (shard, nonce) lists <-> counters) is NOT decided here: every path
+// through listOfHeadersByNonces calls time.Now() (no model: whole heap havoc) and the maps hold structs by value.
+
+/*@
+struct headersPool
+  guarded_by mutHeadersPool: cache
+  guarded_by mutAddedDataHandlers: addedDataHandlers
+  invariant wired: cache != nil && cache.headersNonceCache != nil
+
+// ---- counters ---------------------------------------------------------------------------------------------------------
+func (nhs numHeadersByShard) getCount(shardId uint32) (r int64)
+  assigns nothing
+
+func (nhs numHeadersByShard) totalHeaders() (r int)
+  assigns nothing
+
+loop 1
+  invariant true
+
+// ---- cache: read-only lookups (called under RLock) ---------------------------------------------------------------------
+func (cache *headersCache) getNumHeaders(shardId uint32) (r int64)
+  assigns nothing
+
+func (cache *headersCache) totalHeaders() (r int)
+  assigns nothing
+
+func (hMap listOfHeadersByNonces) keys() (r []uint64)
+  ensures fresh(r)
+  assigns nothing
+
+loop 1
+  invariant fresh(nonces)
+
+// C29 "lookups of shards never seen before": Nonces() holds only RLock, so keys() must be a pure lookup.
+func (cache *headersCache) keys(shardId uint32) (r []uint64)
+  requires cache.headersNonceCache != nil
+  assigns nothing
+
+// ---- cache: writers (called under Lock) ----------------------------------------------------------------------------------
+func (cache *headersCache) getShardMap(shardId uint32) (m listOfHeadersByNonces)
+  requires cache.headersNonceCache != nil
+  assigns mapof(cache.headersNonceCache)
+
+func (cache *headersCache) clear()
+  ensures emptied: len(cache.headersNonceCache) == 0 && len(cache.headersCounter) == 0 && len(cache.headersByHash) == 0
+  assigns cache.headersNonceCache, cache.headersCounter, cache.headersByHash
+
+// ---- pool ---------------------------------------------------------------------------------------------------------------
+func (pool *headersPool) GetNumHeaders(shardId uint32) (r int)
+  requires inv(pool)
+  ensures lock-released: !held(pool.mutHeadersPool) && !heldR(pool.mutHeadersPool)
+  assigns nothing
+
+func (pool *headersPool) Nonces(shardId uint32) (r []uint64)
+  requires inv(pool)
+  ensures lock-released: !held(pool.mutHeadersPool) && !heldR(pool.mutHeadersPool)
+  assigns nothing
+
+func (pool *headersPool) Len() (r int)
+  requires inv(pool)
+  ensures lock-released: !held(pool.mutHeadersPool) && !heldR(pool.mutHeadersPool)
+  assigns nothing
+
+func (pool *headersPool) MaxSize() (r int)
+  requires inv(pool)
+  ensures lock-released: !held(pool.mutHeadersPool) && !heldR(pool.mutHeadersPool)
+  assigns nothing
+
+func (pool *headersPool) Clear()
+  requires inv(pool)
+  ensures lock-released: !held(pool.mutHeadersPool) && !heldR(pool.mutHeadersPool)
+  assigns pool.cache.headersNonceCache, pool.cache.headersCounter, pool.cache.headersByHash
+
+// writers whose cache callees are outside the engine's reach (time.Now, sort.Slice): lock obligations only
+func (pool *headersPool) RemoveHeaderByHash(headerHash []byte)
+  requires inv(pool)
+  ensures lock-released: !held(pool.mutHeadersPool) && !heldR(pool.mutHeadersPool)
+
+func (pool *headersPool) RemoveHeaderByNonceAndShardId(hdrNonce uint64, shardId uint32)
+  requires inv(pool)
+  ensures lock-released: !held(pool.mutHeadersPool) && !heldR(pool.mutHeadersPool)
+
+func (pool *headersPool) GetHeaderByHash(hash []byte) (h data.HeaderHandler, err error)
+  requires inv(pool)
+  ensures lock-released: !held(pool.mutHeadersPool) && !heldR(pool.mutHeadersPool)
+
+func (pool *headersPool) AddHeader(headerHash []byte, header data.HeaderHandler)
+  requires inv(pool)
+  ensures lock-released: !held(pool.mutHeadersPool) && !heldR(pool.mutHeadersPool)
+
+// handlers run on their own goroutines (`go handler(..)`: abstracted, heap havoc'd there); the handler list is read under its mutex
+func (pool *headersPool) callAddedDataHandlers(headerHandler data.HeaderHandler, headerHash []byte)
+  havoc_at go
+  ensures lock-released: !held(pool.mutAddedDataHandlers) && !heldR(pool.mutAddedDataHandlers)
+
+loop 1
+  invariant -1 <= rangeindex && rangeindex <= 281474976710655     // (the ranged slice is an SSA value; after the `go` havoc the field may differ)
+  invariant heldR(pool.mutAddedDataHandlers)
+
+func (pool *headersPool) RegisterHandler(handler func(headerHandler data.HeaderHandler, headerHash []byte))
+  ensures lock-released: !held(pool.mutAddedDataHandlers) && !heldR(pool.mutAddedDataHandlers)
+
+func (pool *headersPool) GetHeadersByNonceAndShardId(hdrNonce uint64, shardId uint32) (hs []data.HeaderHandler, hashes [][]byte, err error)
+  requires inv(pool)
+  ensures lock-released: !held(pool.mutHeadersPool) && !heldR(pool.mutHeadersPool)
+@*/
